@@ -828,3 +828,97 @@ Section Order.
       + apply nodup_app_r in Hn. apply (nodup_app_disj _ _ i Hn Hq Hi).
   Qed.
 End Order.
+
+(* ---------------------------------------------------------------------------------------------- *)
+(* invariants of the content: whatever every _do_put/_do_get call on a VALID request (one that passed
+   the constructor's argument check) preserves, holds in every reachable state *)
+Section ContentInv.
+  Context {C P V : Type}.
+  Variable doit : C -> P -> dores C V.
+  Variable Pp : P -> Prop.
+  Variable Q : C -> Prop.
+  Hypothesis HQ : forall c p, Pp p -> Q c -> Q (r_c (doit c p)).
+
+  Lemma scan_content_v : forall q c c' rem gs,
+    scan doit c q = (c', rem, gs) -> Forall (fun r => Pp (snd r)) q -> Q c ->
+    Q c' /\ Forall (fun r => Pp (snd r)) rem.
+  Proof.
+    induction q as [|r t IH]; intros c c' rem gs H F Hc; cbn [scan] in H.
+    - injection H as <- <- <-. auto.
+    - inversion F as [|? ? Fr Ft]; subst. specialize (HQ c (snd r) Fr Hc).
+      destruct (r_val (doit c (snd r))) as [v|]; destruct (r_proceed (doit c (snd r))).
+      + destruct (scan doit (r_c (doit c (snd r))) t) as [[c1 rem1] gs1] eqn:Es.
+        injection H as <- <- <-. eapply IH; eauto.
+      + injection H as <- <- <-. auto.
+      + destruct (scan doit (r_c (doit c (snd r))) t) as [[c1 rem1] gs1] eqn:Es.
+        injection H as <- <- <-. destruct (IH _ _ _ _ Es Ft HQ) as [H1 H2]. auto.
+      + injection H as <- <- <-. auto.
+  Qed.
+End ContentInv.
+
+Section ContentInvK.
+  Variable K : kind.
+  Variable Q : KC K -> Prop.
+  Hypothesis HP : forall c p, k_pvalid K p = true -> Q c -> Q (r_c (k_do_put K c p)).
+  Hypothesis HG : forall c g, k_gvalid K g = true -> Q c -> Q (r_c (k_do_get K c g)).
+
+  Definition CI (s : state K) : Prop :=
+    Q (content s) /\ Forall (fun r => k_pvalid K (snd r) = true) (putq s)
+    /\ Forall (fun r => k_gvalid K (snd r) = true) (getq s).
+
+  Lemma CI_trigger_put s : CI s -> CI (trigger_put s).
+  Proof.
+    intros (Hc & Hp & Hg). destruct (scan (k_do_put K) (content s) (putq s)) as [[c rem] gs] eqn:Es.
+    rewrite (trigger_put_eq _ _ _ _ _ Es).
+    destruct (scan_content_v (k_do_put K) (fun p => k_pvalid K p = true) Q HP _ _ _ _ _ Es Hp Hc) as [H1 H2].
+    repeat split; auto.
+  Qed.
+
+  Lemma CI_trigger_get s : CI s -> CI (trigger_get s).
+  Proof.
+    intros (Hc & Hp & Hg). destruct (scan (k_do_get K) (content s) (getq s)) as [[c rem] gs] eqn:Es.
+    rewrite (trigger_get_eq _ _ _ _ _ Es).
+    destruct (scan_content_v (k_do_get K) (fun p => k_gvalid K p = true) Q HG _ _ _ _ _ Es Hg Hc) as [H1 H2].
+    repeat split; auto.
+  Qed.
+
+  Lemma Forall_remove_id {P : Type} (Pr : nat * P -> Prop) i q : Forall Pr q -> Forall Pr (remove_id i q).
+  Proof.
+    induction q as [|r t IH]; cbn [remove_id]; intros F; [constructor|].
+    inversion F; subst. destruct (Nat.eqb (fst r) i); auto.
+  Qed.
+
+  Lemma CI_step fixed s a s' : CI s -> step fixed s a = Some s' -> CI s'.
+  Proof.
+    intros (Hc & Hp & Hg) H. destruct a as [p|g|i|i|t]; cbn [step] in H.
+    - destruct (k_pvalid K p) eqn:Ev; [|injection H as <-; repeat split; auto]. injection H as <-.
+      apply CI_trigger_put. repeat split; auto. cbn [putq]. apply Forall_app; split; auto.
+    - destruct (k_gvalid K g) eqn:Ev; [|injection H as <-; repeat split; auto]. injection H as <-.
+      apply CI_trigger_get. repeat split; auto. cbn [getq]. apply Forall_app; split; auto.
+    - destruct (mem_id i (putq s)).
+      + injection H as <-.
+        assert (C1 : CI (mkst (content s) (remove_id i (putq s)) (getq s) (trig s) (log s) (next_id s) (now s)))
+          by (repeat split; auto; apply Forall_remove_id; auto).
+        destruct fixed; [apply CI_trigger_put|]; exact C1.
+      + destruct (mem_id i (getq s)).
+        * injection H as <-.
+          assert (C1 : CI (mkst (content s) (putq s) (remove_id i (getq s)) (trig s) (log s) (next_id s) (now s)))
+            by (repeat split; auto; apply Forall_remove_id; auto).
+          destruct fixed; [apply CI_trigger_get|]; exact C1.
+        * destruct (Nat.ltb i (next_id s)); [|discriminate]. injection H as <-. repeat split; auto.
+    - destruct (find_id i (trig s)) as [k|]; [|discriminate]. injection H as <-.
+      destruct k; [apply CI_trigger_get|apply CI_trigger_put]; repeat split; auto.
+    - destruct (trig s); [|discriminate]. destruct (Qlt_bool (now s) t); [|discriminate].
+      injection H as <-. repeat split; auto.
+  Qed.
+
+  Theorem content_invariant fixed (acts : list (action K)) c0 t0 s :
+    Q c0 -> run fixed (init c0 t0) acts = Some s -> Q (content s).
+  Proof.
+    intros H0 Hr. assert (H : CI s).
+    { eapply run_ind with (Pr := CI); eauto.
+      - intros; eapply CI_step; eauto.
+      - repeat split; auto; constructor. }
+    apply H.
+  Qed.
+End ContentInvK.
